@@ -7,6 +7,7 @@ git checkout -q -- . 2>/dev/null
 meta=$O/meta.json
 build=$(python3 -c "import json;print(json.load(open('$meta'))['demo_build_cmd'])")
 run=$(python3 -c "import json;print(json.load(open('$meta'))['demo_run_cmd'])")
+run=$(printf "%s" "$run" | sed -E "s/ {2,}\(.*$//; s/;? +reference:.*$//")
 build=${build//WT\//$WT/}; run=${run//WT\//$WT/}; build=${build//-IWT/-I$WT}
 git apply $O/patch.diff || { echo "APPLY-FAILED"; exit 2; }
 cmake -S $WT -B $WT/_b -G Ninja -DCMAKE_BUILD_TYPE=RelWithDebInfo -DCMAKE_C_FLAGS=-Wno-error >/dev/null 2>&1
